@@ -317,6 +317,75 @@ fn honest_sample(sim: &Sim, p: usize, rng: &mut Rng) -> (Proto, Bytes, Kind) {
     }
 }
 
+/// A proven peer pushes (unasked) made-up filter hashes for the part of the current check-point
+/// interval that the client has not cached yet - stopping short of the next check point, where
+/// they would be compared with the finalized value - and then pushes block filters that are
+/// consistent with them: the filters of the neighbouring blocks instead of the blocks' own.
+fn poison_cached_hashes(sim: &mut Sim, p: usize) -> Vec<(Proto, Bytes, Tag)> {
+    let mut out = Vec::new();
+    let c = match sim.client.as_ref() {
+        Some(c) => c,
+        None => return out,
+    };
+    let interval = sim.plan.knobs.check_point_interval.max(1);
+    let branch = sim.peers[p].view.branch;
+    let height = sim.peers[p].view.height;
+    let mf = c.storage.get_min_filtered_block_number();
+    let finalized = c.storage.get_last_check_point().0 as u64 * interval;
+    let (cp_idx, cached) = c.peers.get_cached_block_filter_hashes();
+    let cp_number = cp_idx as u64 * interval;
+    let next_cp = cp_number + interval;
+    let cached_last = cp_number + cached.len() as u64;
+    let start_h = cached_last + 1;
+    let end = (next_cp - 1).min(height);
+    if !(mf + 1 <= finalized && cp_number < mf + 1 && mf + 1 <= next_cp) || start_h > end || start_h < 2 {
+        return out;
+    }
+    let parent: Byte32 = match cached.last() {
+        Some(h) => h.clone(),
+        None => sim.world.block(branch, cp_number).filter_hash.clone(),
+    };
+    let tampered = |n: u64| sim.world.block(branch, n - 1).filter.clone();
+    let mut hashes: Vec<Byte32> = Vec::new();
+    let mut h = parent.clone();
+    for n in start_h..=end {
+        h = ckb_types::utilities::calc_filter_hash(&h, &tampered(n)).pack();
+        hashes.push(h.clone());
+    }
+    let m1 = packed::BlockFilterHashes::new_builder()
+        .start_number(start_h.pack())
+        .parent_block_filter_hash(parent)
+        .block_filter_hashes(hashes.pack())
+        .build();
+    out.push((
+        Proto::Filter,
+        server::filter_msg(m1).as_bytes(),
+        crafted(Kind::BlockFilterHashes, "pushed made-up filter hashes that stop short of the next check point"),
+    ));
+    let from = mf + 1;
+    if from <= end {
+        let numbers: Vec<u64> = (from..=end).collect();
+        let m2 = packed::BlockFilters::new_builder()
+            .start_number(from.pack())
+            .block_hashes(numbers.iter().map(|n| sim.world.block(branch, *n).hash()).collect::<Vec<_>>().pack())
+            .filters(
+                numbers
+                    .iter()
+                    .map(|n| if *n >= start_h { tampered(*n) } else { sim.world.block(branch, *n).filter.clone() })
+                    .collect::<Vec<_>>()
+                    .pack(),
+            )
+            .build();
+        out.push((
+            Proto::Filter,
+            server::filter_msg(m2).as_bytes(),
+            crafted(Kind::BlockFilters, "pushed block filters consistent with the made-up hashes"),
+        ));
+    }
+    sim.stat("fault.byz.poisoned_cached_filter_hashes");
+    out
+}
+
 fn random_hashes(rng: &mut Rng, n: usize) -> Vec<Byte32> {
     (0..n)
         .map(|_| {
@@ -339,6 +408,9 @@ pub fn inject(sim: &mut Sim, p: usize, spec: &InjectSpec) -> Vec<(Proto, Bytes, 
         None => (0, 0),
     };
     let interval = sim.plan.knobs.check_point_interval;
+    if spec.kind == 100 {
+        return poison_cached_hashes(sim, p);
+    }
     match spec.kind % 8 {
         0 => {
             // random bytes on a random protocol
